@@ -357,6 +357,11 @@ def structural_faults(doc):
     """-> list of fault descriptors"""
     out = [{"f": "file", "content": ""}, {"f": "file", "content": "  \n"}, {"f": "file", "content": "not json {"},
            {"f": "file", "content": "[]"}, {"f": "file", "content": "null"}, {"f": "file", "content": "{}"}, {"f": "file", "content": "\"x\""},
+           # nesting deeper than any recursion limit (an unbalanced run, a balanced one, a run inside a half-written document)
+           {"f": "file", "content": "[" * 150000}, {"f": "file", "content": "[" * 60000 + "]" * 60000},
+           {"f": "file", "content": "{\"version\": \"x\", \"codebase\": " + "{\"files\": " * 50000},
+           # a file longer than any report the scan will write (garbage, and a complete document with a tail)
+           {"f": "file", "content": "x" * 400000},
            {"f": "nofile"}, {"f": "nomarker", "name": "CACHEDIR.TAG"}, {"f": "nomarker", "name": ".gitignore"}, {"f": "nomarkers"}]
     # an optional section of the document format that a scan of a plain folder never writes: a repository with plausible and with
     # damaged values (the section must not leak into the new report: the fresh scan of this folder has none)
